@@ -708,26 +708,54 @@ def reach_boolconst(body, starts):
 # ---------------------------------------------------------------------------
 # may-reachability under an assumption (necessary-condition rules)
 # ---------------------------------------------------------------------------
-def may_reach(body, targets, decide, start=0, avoid=()):
+def may_reach(body, targets, decide, start=0, avoid=(), cap=40000):
     """Is some block of `targets` reachable from `start` when `decide(bb, term)` restricts the successors of the
     switches it understands (it returns the list of allowed successor blocks, or None for 'all')?  Everything the
     decider does not understand stays non-deterministic, so the answer over-approximates: False is a proof that the
-    targets cannot be reached under the assumption."""
+    targets cannot be reached under the assumption.  Bool locals that a path sets to a constant (`a && (b || c)`
+    stored in a flag, `matches!`) are followed to the switch that tests them."""
     targets = set(targets)
-    seen = set(avoid)
-    work = [start]
+    avoid = set(avoid)
+    seen = set()
+    work = [(start, frozenset())]
+    steps = 0
     while work:
-        b = work.pop()
-        if b in seen:
+        b, st = work.pop()
+        if b in avoid or (b, st) in seen:
             continue
-        seen.add(b)
+        seen.add((b, st))
+        steps += 1
+        if steps > cap:
+            return True
         if b in targets:
             return True
+        facts = dict(st)
+        for stt in body.stmts(b):
+            if "lhs" not in stt or stt["lhs"][1]:
+                continue
+            l = stt["lhs"][0]
+            rv = stt["rv"]
+            cb = const_bool(rv["op"]) if rv.get("k") == "use" else None
+            src = op_place(rv["op"]) if rv.get("k") == "use" else None
+            if cb is not None:
+                facts[l] = bool(cb)
+            elif src is not None and not src[1] and src[0] in facts:
+                facts[l] = facts[src[0]]
+            else:
+                facts.pop(l, None)
         t = body.term(b)
         allowed = decide(b, t) if t["k"] == "switch" else None
+        if t["k"] == "switch" and allowed is None:
+            pl = op_place(t["op"])
+            if pl is not None and not pl[1] and pl[0] in facts:
+                tt, ft = switch_targets_bool(t)
+                allowed = [tt] if facts[pl[0]] else [ft]
+        elif t["k"] == "call" and t.get("dest") and not t["dest"][1]:
+            facts.pop(t["dest"][0], None)
+        nst = frozenset(facts.items())
         for s in body.succs(b):
             if allowed is None or s in allowed:
-                work.append(s)
+                work.append((s, nst))
     return False
 
 
